@@ -353,7 +353,7 @@ where
 
     #[inline(never)]
     fn init(&mut self) -> Result<bool, Error> {
-        let n = fill_buf(&mut self.buf_reader)?;
+        let n = self.fill_buf()?;
         if n == 0 {
             self.state = State::Finished;
             return Ok(false);
@@ -364,6 +364,23 @@ where
     #[inline]
     fn get_buf(&self) -> &[u8] {
         self.buf_reader.buffer()
+    }
+
+    // Fills the buffer. If an I/O error occurs, the buffer may be incompletely
+    // filled, which would later be mistaken for the end of the input.
+    // Therefore, the buffer contents are discarded, and nothing more is
+    // returned until seek() is called successfully.
+    fn fill_buf(&mut self) -> Result<usize, Error> {
+        fill_buf(&mut self.buf_reader).map_err(|e| {
+            self.discard_buf();
+            Error::from(e)
+        })
+    }
+
+    fn discard_buf(&mut self) {
+        let n = self.get_buf().len();
+        self.buf_reader.consume(n);
+        self.state = State::Finished;
     }
 
     // Sets starting points for next position
@@ -431,7 +448,7 @@ where
                 self.make_room(incomplete_pos);
             }
 
-            fill_buf(&mut self.buf_reader)?;
+            self.fill_buf()?;
 
             if let Some(pos) = self.search_incomplete(incomplete_pos)? {
                 incomplete_pos = pos;
@@ -726,9 +743,13 @@ where
             return Ok(());
         }
 
-        self.buf_reader.seek(io::SeekFrom::Start(to.byte))?;
-        fill_buf(&mut self.buf_reader)?;
+        // The buffer is discarded. If seeking or reading fails,
+        // nothing is returned until the next successful seek().
+        self.discard_buf();
         self.buf_pos.reset(0);
+        self.buf_reader.seek(io::SeekFrom::Start(to.byte))?;
+        self.fill_buf()?;
+        self.state = State::Positioned;
         Ok(())
     }
 }
